@@ -162,6 +162,15 @@ def rewrite(F, rep):
         seen_hook |= "newtype_checked_ctor" in flds
         seen_impl |= "current_impl_type" in flds
         ok = flds <= allowed and not on_irtype
+        # the inside-impl exemption is for `impl T` itself: the guard has to COMPARE current_impl_type with the name of
+        # the type being constructed; a bare is_none()/is_some() exempts (or not) every impl body alike
+        if "current_impl_type" in flds and names and all(nm in ("is_none", "is_some") for nm in names):
+            rep.oblige("REWRITE", "exemption-compares-with-T@bb%d" % b, False)
+            rep.add(Finding("REWRITE", "REWRITE|lower_expr|exemption-not-compared",
+                            "the inside-impl exemption of the checked-construction rewrite only asks whether SOME impl "
+                            "is being lowered (current_impl_type.%s()) instead of comparing it with the type being "
+                            "constructed: `T(x)` inside a method of any other type skips the validation hook"
+                            % names[0], file=g.file, line=t.get("ln"), fn=g.path))
         inst = "guard@%s:bb%d" % (g.path.split("::")[-1], b) if g is not f else "guard@bb%d" % b
         rep.oblige("REWRITE", inst, ok, sample={"rule": "REWRITE", "fn": g.path.split("::")[-1], "line": t.get("ln"),
                                                 "reads": sorted(flds), "via": sorted(set(names))[:5],
@@ -247,10 +256,18 @@ def hookselect(F, rep):
                             "the selection ambiguous, no hook is chosen and every T(x) is constructed unchecked"
                             % (what, fld), file=g.file, line=t.get("ln"), fn=g.path))
     pref = any((callee_generic(t2) or "").endswith("::find") for q in own for _, t2 in F.fns[q].calls())
+    # ... and before the number of candidates decides anything: every len() of the candidates is taken after the search
+    finds = [bi for bi, t2 in f.calls() if (callee_generic(t2) or "").endswith("::find")]
+    lens = [bi for bi, t2 in f.calls() if (callee_generic(t2) or "").endswith("::len") and "Vec" in (callee_generic(t2) or "")]
+    dom_f = f.dominators()
+    if pref and finds and lens:
+        pref = all(any(fb in dom_f.get(lb, set()) for fb in finds) for lb in lens)
     rep.oblige("HOOKSELECT", "prefers-from_underlying", pref)
     if not pref:
         rep.add(Finding("HOOKSELECT", "HOOKSELECT|preference", "select_newtype_checked_ctor no longer searches the "
-                        "candidates for from_underlying first", file=f.file, line=f.line, fn=f.path))
+                        "candidates for from_underlying before the number of candidates decides: a newtype with "
+                        "from_underlying plus another well-shaped from_* gets no hook at all", file=f.file,
+                        line=f.line, fn=f.path))
 
 
 def pair(F, rep):
